@@ -277,6 +277,11 @@ def rule_shared(program, ctx, prop=P, rid="C02.shared"):
 
 
 def run(program, ctx):
+    from . import c07
+
+    # an event whose tag rows are written in another transaction than its own row can end up stored without them:
+    # kinds/ids/authors filters then return it, every tag filter omits it
+    c07.rule_sqlregion(program, ctx, prop=P, rid="C02.txn")
     rule_dispatch(program, ctx)
     rule_presence(program, ctx)
     # shared construct with C12
